@@ -269,9 +269,16 @@ def reconstruction(run, seed, idx, geometry, roi_iradon):
     Rmax = (ny / 2.0 - abs(y0off) - 2) * ystep
     rad = float(r.uniform(0, max(0.5 * ystep, 0.9 * Rmax)))
     phi = float(r.uniform(0, 2 * np.pi))
+    # a 0-360 scan with the axis off the middle also sees, from one side, the ring between ny/2 - |offset| and
+    # ny/2 + |offset| steps from the axis (this is what the pad is for): half of such scans place the grain there
+    ro = rng(seed, "C19", "rec-outer", idx)
+    outer = bool(full and abs(y0off) >= 3 and ro.random() < 0.5)
+    if outer:
+        rad = float(ro.uniform(ny / 2.0 - abs(y0off) + 1, ny / 2.0 + abs(y0off) - 3)) * ystep
+        run.count("reconstructions_grain_in_outer_ring")
     sx, sy = rad * np.cos(phi), rad * np.sin(phi)
     desc = dict(index=idx, kind="reconstruction", ystep=ystep, ny=ny, y0_offset_steps=y0off, full=full,
-                sx=sx, sy=sy, ymin=ymin)
+                sx=sx, sy=sy, ymin=ymin, outer_ring=outer)
     run.case(("rec", ystep, ny, round(y0off, 3), full, round(rad / ystep, 2), round(phi, 2)),
              nontrivial=(y0off != 0 or rad > ystep), sample=desc if idx < 3 else None)
 
@@ -279,7 +286,11 @@ def reconstruction(run, seed, idx, geometry, roi_iradon):
         run.violation(key, what, desc)
     sino = build_sino(geometry, sx, sy, y0, ystep, ny, ymin, angles)
     shift, pad = geometry.sino_shift_and_pad(y0, ny, ymin, ystep)
-    rec = roi_iradon.run_iradon(sino, angles, pad=int(pad), shift=float(shift), workers=1)
+    try:
+        rec = roi_iradon.run_iradon(sino, angles, pad=int(pad), shift=float(shift), workers=1)
+    except Exception as e:
+        V("recon:exception", "run_iradon with the module's own shift %r and pad %r raised %s: %s" % (shift, pad, type(e).__name__, e))
+        return
     run.count("reconstructions")
     if rec.shape != (ny + int(pad), ny + int(pad)):
         V("recon:shape", "reconstruction shape %r, expected %d+%d" % (rec.shape, ny, pad))
